@@ -63,6 +63,7 @@ var c10Docs = []string{
 	`{"a":1,"l":[1,"y"],"o":{"b":"x","l":[2,3]},"s":"t"}`,
 	`{"a":"x","l":["p","q","r"],"o":{"b":[1,"y"],"l":["z"]},"s":""}`,
 	`{"a":2.5,"l":[true,2],"o":{"b":{"c":"deep"},"l":[[1],[2]]},"s":"u,v"}`,
+	`{"a":3,"l":[4,5],"o":{"b":"x","l":[6,7.5]},"s":"1,2","v":[1,2,4]}`,
 }
 
 func c10Stores() [][]store.Pair {
@@ -127,6 +128,9 @@ func c10Probes() []c10Probe {
 		call("cosine_distance", call("list", n(1), n(0)), call("list", iv(), n(1))),
 		call("cosine_distance", call("list", n(1), n(2)), call("list", n(2), n(4))),
 		call("cosine_distance", call("split", v(), s(",")), call("list", n(3), n(4))),
+		// lists of text (the README: "the list type support int, str, float types")
+		call("list", v(), k()), call("list", s("a"), s("b")), call("list", k()), ref.Idx(call("list", v(), k()), n(1)), ref.Idx(call("list", s("p"), v(), k()), n(0)),
+		call("len", call("list", k(), v(), s("z"))), call("join", s("-"), ref.Idx(call("list", k(), v()), n(1)), ref.Idx(call("list", k(), v()), n(0))),
 		// must be refused: different lengths
 		call("l2_distance", call("list", iv()), call("list", n(1), n(2))),
 		call("cosine_distance", call("list", n(1), n(2), n(3)), call("list", iv(), n(1))),
@@ -143,6 +147,11 @@ func c10Probes() []c10Probe {
 		ref.Idx(ref.Idx(ref.Idx(js(), s("o")), s("l")), n(0)), ref.Idx(ref.Idx(ref.Idx(js(), s("o")), s("b")), n(1)), ref.Idx(ref.Idx(ref.Idx(js(), s("o")), s("b")), s("c")),
 		call("len", ref.Idx(js(), s("l"))), call("len", ref.Idx(ref.Idx(js(), s("o")), s("l"))),
 		call("split", ref.Idx(js(), s("s")), s(",")), call("upper", ref.Idx(js(), s("s"))), call("strlen", ref.Idx(js(), s("s"))),
+		// vectors read from a JSON document (the README's own example passes json(value) to l2_distance)
+		call("l2_distance", ref.Idx(ref.Idx(js(), s("o")), s("l")), call("list", n(1), n(2))),
+		call("l2_distance", call("list", n(1), n(2), n(3)), ref.Idx(js(), s("v"))),
+		call("cosine_distance", ref.Idx(js(), s("l")), call("list", n(1), n(2))),
+		call("l2_distance", call("split", ref.Idx(js(), s("s")), s(",")), ref.Idx(js(), s("l"))),
 	}
 	for _, e := range jp {
 		out = append(out, c10Probe{e, true})
